@@ -52,6 +52,8 @@ def classify(kind, case):
         return "flush-not-at-pattern-boundary"
     if kind == "scases":
         return "header-only-classification"
+    if case.get("hop_leak"):
+        return ("handler-" if kind == "xcases" else "") + "hop-by-hop-field-reaches-client"
     if kind == "xcases" and case.get("only304ct"):
         return "handler-304-content-type-dropped"
     if kind in ("ecases", "tcases", "xcases"):
@@ -116,7 +118,7 @@ def run(ctx):
             ctx.log("harness: %s" % json.dumps(meta.get("counts")))
             if meta.get("hook_problem"):
                 ob_failed.append("verif hook does not fit this tree: " + meta["hook_problem"])
-            res = ctx.coq_eval_shards(GROUP, ctx.work, meta["shards"], timeout=1200)
+            res = ctx.coq_eval_shards(GROUP, ctx.work, meta["shards"], idents=("M", "P", "A"), timeout=1200)
             for shard, lg in res["_errors"]:
                 ob_failed.append("correspondence shard %s did not evaluate: %s" % (shard, lg[-600:]))
             cache = {}
@@ -127,17 +129,22 @@ def run(ctx):
                     cache[kind] = load_jsonl(os.path.join(ctx.work, kind + ".jsonl"))
                 size = meta.get("shard_sizes", {}).get(kind, meta["shard_size"])
                 base = idx * size
+                absent_bad = set(ctx.parse_nlist(r.get("A")) or [])
                 for ident, acc in (("M", model_bad), ("P", prop_bad)):
                     for i in (ctx.parse_nlist(r.get(ident)) or []):
                         src = cache[kind]
                         case = src[base + i] if base + i < len(src) else {"index": base + i}
+                        if ident == "P" and i in absent_bad:
+                            case = dict(case, hop_leak=True)
                         acc.append((kind, case))
 
     # http.Handler variant: a failure that disappears when Content-Type on 304 replies is not expected
     # (ycases = the same connections, relaxed) is Go's http.Server dropping that field, a known finding
-    relaxed_bad = set(json.dumps(c, sort_keys=True) for k, c in prop_bad if k == "ycases")
+    def strip(c):
+        return {k: v for k, v in c.items() if k not in ("hop_leak", "only304ct")}
+    relaxed_bad = set(json.dumps(strip(c), sort_keys=True) for k, c in prop_bad if k == "ycases")
     prop_bad = [(k, c) for k, c in prop_bad if k != "ycases"]
-    prop_bad = [(k, dict(c, only304ct=True)) if k == "xcases" and json.dumps(c, sort_keys=True) not in relaxed_bad else (k, c)
+    prop_bad = [(k, dict(c, only304ct=True)) if k == "xcases" and json.dumps(strip(c), sort_keys=True) not in relaxed_bad else (k, c)
                 for k, c in prop_bad]
 
     def smallest(cases):
@@ -152,8 +159,8 @@ def run(ctx):
         ctx.violation(key, dict(kind=kind, case=kc[1].get("case", kc[1])), True,
                       "%d %s where the implementation's own output fails the C02 predicate (%s); smallest: %s"
                       % (len(lst), kind, KINDS.get(kind, ("", ""))[1], json.dumps(kc[1])[:400]))
-    pkeys = set((k, json.dumps(c, sort_keys=True)) for k, c in prop_bad)
-    only_model = [(k, c) for k, c in model_bad if (k, json.dumps(c, sort_keys=True)) not in pkeys]
+    pkeys = set((k, json.dumps(strip(c), sort_keys=True)) for k, c in prop_bad)
+    only_model = [(k, c) for k, c in model_bad if (k, json.dumps(strip(c), sort_keys=True)) not in pkeys]
     by_kind = {}
     for kind, case in only_model:
         by_kind.setdefault(kind, []).append((kind, case))
